@@ -365,7 +365,7 @@ func labelValuesOf(m prometheus.Metric, names []string) ([]string, *dto.Metric) 
 // sequential cases
 // ---------------------------------------------------------------------------------------------
 
-var allNames = []string{"a", "b", "ab", "a_b", "z", "A"}
+var allNames = []string{"a", "b", "ab", "a_b", "z", "A", "c", "d"}
 var validVals = []string{"", "a", "b", "ab", "abc", "A", "aB", "a!", "c", "é", "日本"}
 var invalidVals = []string{"a\xffb", "\xff", "\xc3", "\xe2\x82", "a\x80"}
 
@@ -396,6 +396,7 @@ type seqGen struct {
 	errs   map[int]bool
 	delHit bool
 	consts prometheus.Labels // const labels of the vector (0, 1, 3 or 5 of them)
+	sibs   []int             // views curried from one common parent view on a later label (deep cases)
 }
 
 func emitLabels(l prometheus.Labels) string {
@@ -587,7 +588,66 @@ func (g *seqGen) mutateLabels(l prometheus.Labels, free, cur []string) {
 	}
 }
 
-func (g *seqGen) pickView() int { return g.r.Intn(len(g.views)) }
+func (g *seqGen) pickView() int {
+	if len(g.sibs) > 0 && g.r.Chance(3, 5) {
+		return g.sibs[g.r.Intn(len(g.sibs))] // sibling views are used interleaved, most of the time
+	}
+	return g.r.Intn(len(g.views))
+}
+
+// validVal: a value of the pool (or a fallback) that CurryWith accepts.
+func (g *seqGen) validVal() string {
+	for k := 0; k < 8; k++ {
+		if v := g.val(); utf8.ValidString(v) {
+			return v
+		}
+	}
+	return "a"
+}
+
+// deepPrelude builds, on a vector with 6-8 labels, a curry chain of depth 1-3 ending in a parent view
+// with p (3, 5, 6 or 7) curried labels -- the leading labels, so that nothing is curried in front of
+// them later -- and then two or three SIBLING views curried from that parent on a later label with
+// pairwise different values. All views stay alive; the rest of the case uses them interleaved. Views
+// that share storage for their curried values (instead of each owning a copy) then answer for the
+// wrong sibling.
+func (g *seqGen) deepPrelude(p int) {
+	parent, done := 0, 0
+	depth := 1 + g.r.Intn(3)
+	for step := 0; step < depth && done < p; step++ {
+		k := p - done
+		if step < depth-1 {
+			k = 1 + g.r.Intn(p-done)
+		}
+		l := prometheus.Labels{}
+		for _, n := range g.names[done : done+k] {
+			l[n] = g.validVal()
+		}
+		before := len(g.views)
+		g.doCurry(parent, l)
+		if len(g.views) == before {
+			return // refused (a constraint made a value invalid): an ordinary case from here on
+		}
+		parent, done = before, done+k
+	}
+	if done < p {
+		return
+	}
+	j := p + g.r.Intn(len(g.names)-p) // a later label
+	vals := []string{"a", "b", "ab", "", "c"}
+	for i := len(vals) - 1; i > 0; i-- {
+		k := g.r.Intn(i + 1)
+		vals[i], vals[k] = vals[k], vals[i]
+	}
+	ns := 2 + g.r.Intn(2)
+	for i := 0; i < ns; i++ {
+		before := len(g.views)
+		g.doCurry(parent, prometheus.Labels{g.names[j]: vals[i]})
+		if len(g.views) > before {
+			g.sibs = append(g.sibs, before)
+		}
+	}
+}
 
 func (g *seqGen) curriedViews() int {
 	n := 0
@@ -824,11 +884,19 @@ func genSeqCase(r *emit.Rng, pm int, invalidCommon bool) (string, bool, []string
 	if r.Chance(1, 2) {
 		nn = 2 + r.Intn(2) // two or three labels are the interesting sizes
 	}
+	deepP := 0
+	if r.Chance(1, 8) {
+		deepP = []int{3, 5, 6, 7}[r.Intn(4)]
+		nn = deepP + 1 + r.Intn(2)
+		if nn > len(perm) {
+			nn = len(perm)
+		}
+	}
 	g.names = perm[:nn]
 	// constraints
 	codes := make([]int, nn)
 	constrained := false
-	if !r.Chance(60, 100) {
+	if !r.Chance(60, 100) && (deepP == 0 || r.Chance(1, 3)) {
 		for i := range codes {
 			codes[i] = r.Intn(6)
 			constrained = constrained || codes[i] != 0
@@ -872,6 +940,9 @@ func genSeqCase(r *emit.Rng, pm int, invalidCommon bool) (string, bool, []string
 	plain := !constrained && r.Bool()
 	g.views = []*view{{a: newVec(typ, hmode, g.names, codes, plain, g.consts), curried: make([]bool, nn)}}
 
+	if deepP > 0 {
+		g.deepPrelude(deepP)
+	}
 	nops := 40 + r.Intn(41)
 	for len(g.ops) < nops {
 		switch x := r.Intn(100); {
@@ -920,6 +991,9 @@ func genSeqCase(r *emit.Rng, pm int, invalidCommon bool) (string, bool, []string
 	}
 	tags = append(tags, fmt.Sprintf("views:%d", len(g.views)-1))
 	tags = append(tags, fmt.Sprintf("constlabels:%d", len(g.consts)))
+	if deepP > 0 {
+		tags = append(tags, fmt.Sprintf("deep:parent-curried-%d", deepP), fmt.Sprintf("deep:siblings-%d", len(g.sibs)))
+	}
 	nontrivial := len(g.ids) >= 2 && g.delHit && len(g.errs) > 0
 	return term, nontrivial, tags
 }
